@@ -652,10 +652,10 @@ def minimum(prog, rep):
         ifnode = cfg.node(cfg.enclosing(good)[-1][0])
         rep.check(all(cfg.dominates(ifnode, cfg.node(r)) for r in rets), "C10.min", f"{q}:dominates", fn.where(),
                   "the size test dominates every return", "the interval-count test must be on every path to the return")
-    okr = len(rets) == 1
-    if okr:
-        _r, (m_t, _ref_t, b_t) = ret_triple(fn, b)
-        okr = m_t == IT(sl, 0) and b_t == IT(sl, 2)
+    okr = bool(rets)
+    for r_ in rets:
+        m_t, _ref_t, b_t = _triple_of(fn, b, r_)
+        okr = okr and m_t == IT(sl, 0) and b_t == IT(sl, 2)
     rep.check(okr, "C10.min", f"{q}:returns", fn.where(), "returns the masks and boundaries of _slice(data) unchanged",
               "slice_ must return the masks and boundaries computed by _slice(data)")
 
@@ -819,16 +819,23 @@ def ppi(prog, rep):
     # boundaries: midpoint of neighbouring extremes
     mids = []
     for st in cfg.all_stmts():
-        if isinstance(st, ast.Assign) and isinstance(st.value, ast.BinOp) and isinstance(st.value.op, ast.Div):
-            t = b.term(st.value, st)
-            mids.append((st, t))
+        for node in _own_nodes(st):
+            if isinstance(node, ast.BinOp) and isinstance(node.op, ast.Div):
+                mids.append((st, b.term(node, st)))
     okm = False
     for st, t in mids:
-        if algebra.same(t[3], ("const", 2)) and t[2][0] == "bin" and t[2][1] == "+":
+        if t[0] == "bin" and t[1] == "/" and algebra.same(t[3], ("const", 2)) and t[2][0] == "bin" and t[2][1] == "+":
             a, c = t[2][2], t[2][3]
+            if a[0] == "call" and a[1] == G("numpy.min") and c[0] == "call" and c[1] == G("numpy.max"):
+                a, c = c, a  # min(next) + max(current)
             if a[0] == "call" and a[1] == G("numpy.max") and c[0] == "call" and c[1] == G("numpy.min"):
                 nxt = c[2][0]
                 cur = a[2][0]
+                # neighbours taken from one sequence X of the intervals' data: X[:-1][k] and X[1:][k]
+                if cur[0] == "sub" and nxt[0] == "sub" and cur[2] == nxt[2] and cur[1][0] == "sub" and nxt[1][0] == "sub" and cur[1][1] == nxt[1][1] \
+                        and cur[1][2] == ("slice", NONE, ("const", -1), NONE) and nxt[1][2] == ("slice", ("const", 1), NONE, NONE) and mentions(cur[1][1], DATA):
+                    okm = True
+                    continue
                 # next_interval = data[masks[i+1]] ; interval in {data[masks[0]], previous next_interval}
                 masks_t = None
                 if nxt[0] == "sub" and nxt[1] == DATA and nxt[2][0] == "sub":
